@@ -47,6 +47,32 @@ CHECKS = {
         design="5/C09",
         technique="TLA+ spec N2KCodec (AllowedTicks/Representable); TLC record validation of encoder outputs for boundary requests",
     ),
+    "C06": dict(
+        level="model_checking",
+        text=("TLC checks the wire-format operators of spec/N2KWire.tla over data alphabets containing every delimiter and marker: "
+              "EByte and USB Parse o Render = identity and fixed sizes, the USB checksum exposes all 18 x 255 single-byte corruptions, "
+              "Yacht Devices lines are single CR/LF-terminated lines, and a concatenation of packets is split back into the same "
+              "packets by the matching discipline of N2KFraming. The real encoders' outputs for every encodable definition x four "
+              "formats are judged by TLC (packet count per the specification's segmentation, sizes, identifier = Build, frame data, "
+              "checksum, line structure, Actisense tokens), the matching real decoder must give back an equal projection, and "
+              "decode_usb must refuse every single-byte corruption of sampled packets."),
+        note=("Trusted: TLC; text tokens read as hexadecimal by the harness; the encoder's own payload is the ground truth for the frame "
+              "data (payload fidelity is C02). One known finding (empty payload through Actisense)."),
+        design="5/C06",
+        technique="TLA+ spec N2KWire/N2KFraming model-checked by TLC; record validation of real encoder outputs and decoder verdicts by TLC",
+    ),
+    "C07": dict(
+        level="model_checking",
+        text=("The specification itself (Build, fast-packet segmentation, the renderers of N2KWire) renders every chosen message - two "
+              "per decodable fixed-layout definition, 338 definitions, single-frame and fast-packet incl. 144 fast messages of at most "
+              "8 bytes - in nine ways (EByte, USB, Yacht Devices R/T with both hex cases, canboat plain frame-wise with two timestamp "
+              "forms, Actisense assembled with two timestamps/cases, canboat plain assembled). The renderings are fed to the five public "
+              "decode_* entry points of fresh decoders and TLC judges the projected results: decoded by every format, nothing before the "
+              "last frame, all nine equal. MC_Wire checks the renderers' laws."),
+        note="Trusted: TLC; messages are chosen among payloads the decoder accepts (content is C01's business); timestamps excluded.",
+        design="5/C07",
+        technique="TLA+ spec N2KWire renders inputs (spec->code), observations judged by TLC; MC_Wire laws model-checked",
+    ),
     "C08": dict(
         level="translation_validation",
         text=("TLC checks N2KCodec!Select on the real database for all 163 definitions of the 25 multi-definition PGNs "
